@@ -129,7 +129,7 @@ pub fn c03_build(raw: &Raw, _tier: Tier, _sched: bool) -> Scenario {
 
 pub fn c03_check(scn: &Scenario, h: &History) -> Outcome {
     let mut out = Outcome::default();
-    let Some((d, p)) = prepare("C03", false, scn, h, &mut out) else { return out };
+    let Some((d, p)) = prepare("C03", true, scn, h, &mut out) else { return out };
     for m in findings_of(&p, &[Kind::Notify]) {
         out.viol(m);
     }
@@ -198,7 +198,7 @@ pub static C03: Profile = Profile {
     build: c03_build,
     check: c03_check,
     budget: Budget { r_cases: (4000, 30000), s_cases: (2000, 8000), s_scheds: (16, 64) },
-    liveness: false,
+    liveness: true,
     enumerate: None,
     extra: None,
     borrow: &["C01", "C02", "C04", "C05", "C06", "C07", "C08", "C09", "C10", "C11", "C12", "C13", "C14", "C15", "C18", "C19"],
@@ -222,7 +222,7 @@ pub fn c07_build(raw: &Raw, _tier: Tier, _sched: bool) -> Scenario {
 
 pub fn c07_check(scn: &Scenario, h: &History) -> Outcome {
     let mut out = Outcome::default();
-    let Some((d, p)) = prepare("C07", false, scn, h, &mut out) else { return out };
+    let Some((d, p)) = prepare("C07", true, scn, h, &mut out) else { return out };
     for m in findings_of(&p, &[Kind::Phase]) {
         out.viol(m);
     }
@@ -271,12 +271,12 @@ pub fn c07_check(scn: &Scenario, h: &History) -> Outcome {
 
 pub static C07: Profile = Profile {
     id: "C07",
-    rule: "proptest scenarios: 1-4 producers, 0-3 reducers (also stores made by StoreImpl::new / new_with_reducer / new_with_name), 0-3 middlewares, 0-3 direct subscribers at build time / in the prelude, plus add_reducer / add_middleware / add_subscriber from client threads mid-run, verdicts incl. BreakChain; in a third of the cases a subscriber dispatches follow-ups into its own store from inside on_notify (re-entrant use: the follow-up must be queued, not run inside the callback). Oracle: per action the callbacks parse as before_reduce* reduce* before_effect* before_dispatch* notify*, each group in registration order, entry/exit strictly nested, all on the store's reducer-context thread, every required component (registered before the dispatch was invoked) present unless a verdict/Keep excuses it. Non-trivial = >= 2 producers, >= 1 middleware and >= 1 run-time component that is required for a later reduced action; distinct by scenario hash.",
+    rule: "proptest scenarios: 1-4 producers, 0-3 reducers (also stores made by StoreImpl::new / new_with_reducer / new_with_name), 0-3 middlewares, 0-3 direct subscribers at build time / in the prelude, plus add_reducer / add_middleware / add_subscriber from client threads (and, in a quarter of the cases, from inside a subscriber's callback) mid-run, verdicts incl. BreakChain; in a third of the cases a subscriber dispatches follow-ups into its own store from inside on_notify (re-entrant use: the follow-up must be queued, not run inside the callback). Oracle: per action the callbacks parse as before_reduce* reduce* before_effect* before_dispatch* notify*, each group in registration order, entry/exit strictly nested, all on the store's reducer-context thread, every required component (registered before the dispatch was invoked) present unless a verdict/Keep excuses it. Non-trivial = >= 2 producers, >= 1 middleware and >= 1 run-time component that is required for a later reduced action; distinct by scenario hash.",
     raw: raw4,
     build: c07_build,
     check: c07_check,
     budget: Budget { r_cases: (4000, 30000), s_cases: (2000, 8000), s_scheds: (16, 64) },
-    liveness: false,
+    liveness: true,
     enumerate: None,
     extra: None,
     borrow: &["C01", "C02", "C03", "C04", "C05", "C06", "C08", "C09", "C10", "C11", "C12", "C13", "C14", "C15", "C18", "C19"],
@@ -298,7 +298,7 @@ pub fn c08_build(raw: &Raw, _tier: Tier, _sched: bool) -> Scenario {
     // sometimes a channeled reader too
     if knob(raw, 11) % 2 == 0 {
         let id = s.subs.iter().map(|x| x.id + 1).max().unwrap_or(0);
-        s.subs.push(SubSpec { id, kind: SubKind::Channeled { cap: 1 + (knob(raw, 12) % 3) as usize, pol: Pol::Block, default_ctor: false }, reads_state: true, gate: None, stall: Stall::None, via_trait: false, forwards: false, on_unsub_ops: vec![], on_notify_ops: vec![] });
+        s.subs.push(SubSpec { id, kind: SubKind::Channeled { cap: 1 + (knob(raw, 12) % 3) as usize, pol: Pol::Block, default_ctor: false }, reads_state: true, gate: None, stall: Stall::None, via_trait: false, forwards: false, on_unsub_ops: vec![], on_notify_ops: vec![], fn_wrapped: false });
         s.prelude.push(Op::Subscribe { store: 0, sub: id });
     }
     s
